@@ -36,12 +36,20 @@ Theorem C03_parmap_return_exceptions : forall f rx xs up,
 Proof. exact parmap_return_exceptions_spec. Qed.
 Print Assumptions C03_parmap_return_exceptions.
 
-Theorem C03_head : forall n xs, run_op (OHead n) (xs, End) = (firstn n xs, End).
+Theorem C03_head : forall n xs, (1 <= n)%nat -> run_op (OHead n) (xs, End) = (firstn n xs, End).
 Proof. exact head_spec. Qed.
 Print Assumptions C03_head.
 
-(* head never pulls more than n+1 elements, however long the source is *)
-Theorem C03_head_pulls : forall n st, (pulls_of (OHead n) st <= n + 1)%nat.
+(* "keeps the first n elements and ignores all the rest": whatever follows the n-th element - more
+   elements, the end of the source or a failure of the source - does not change the result *)
+Theorem C03_head_ignores_the_rest : forall n xs rest up,
+  (1 <= n)%nat -> length xs = n -> run_op (OHead n) (xs ++ rest, up) = (xs, End).
+Proof. exact head_ignores_rest. Qed.
+Print Assumptions C03_head_ignores_the_rest.
+
+(* head never pulls more than n elements, however long the source is (n >= 1: the constructor
+   rejects n = 0) *)
+Theorem C03_head_pulls : forall n st, (1 <= n)%nat -> (pulls_of (OHead n) st <= n)%nat.
 Proof. exact head_pulls. Qed.
 Print Assumptions C03_head_pulls.
 
